@@ -417,10 +417,14 @@ func (c *Conn) Write(b []byte) (int, error) {
 		if sz > len(c.writeBuf) {
 			break
 		}
-		if err := c.inspectWrite(c.writeBuf[:sz]); err != nil {
-			c.writeErr = err
-			c.writeBuf = nil
-			return 0, err
+		// Records that follow application data (or a HelloRetryRequest) in
+		// the same buffer are not interpreted either.
+		if !c.writePassthrough {
+			if err := c.inspectWrite(c.writeBuf[:sz]); err != nil {
+				c.writeErr = err
+				c.writeBuf = nil
+				return 0, err
+			}
 		}
 		n, err := c.Conn.Write(c.writeBuf[:sz])
 		c.writeBuf = c.writeBuf[n:]
